@@ -701,10 +701,18 @@ func (c *Check) genesisIdentityRule(rule string) {
 	vg := l.Func("x/escrow", "", "ValidateGenesis")
 	c.Analysed(fnName(vg))
 	n := 0
-	for _, b := range vg.Blocks {
+	var blocks []*ssa.BasicBlock
+	blocks = append(blocks, vg.Blocks...)
+	for _, h := range helpersOf(vg) {
+		blocks = append(blocks, h.Blocks...) // the validation split into new helpers
+	}
+	for _, b := range blocks {
 		r, isR := b.Instrs[len(b.Instrs)-1].(*ssa.Return)
 		if !isR || len(r.Results) != 1 || !strings.Contains(Sym(r.Results[0]), "ErrPaymentExists") {
 			continue
+		}
+		if cv, isC := r.Results[0].(*ssa.Call); isC && newHelperCallee(cv) != nil {
+			continue // hands on a new helper's verdict: judged at the helper's own returns
 		}
 		n++
 		// the deciding atoms: those that look into a map of payments
